@@ -92,6 +92,7 @@ fn main() {
         "pg_race" => pg::race(&args),
         "decode_drop" => decode::run(&args),
         "wait_wrappers" => waitw::run(&args),
+        "teardown_panic" => waitw::teardown_panic(&args),
         "job_meta" => decode::job_meta(&args),
         "derive_decode" => derive::decode(&args),
         "derive_roundtrip" => derive::roundtrip(&args),
@@ -103,6 +104,7 @@ fn main() {
         "link_race" => supervision::link_race(&args),
         "typegate" => mailbox::typegate(&args),
         "dequeue" => mailbox::dequeue(&args),
+        "request" => mailbox::request(&args),
         "auth_fsm" => auth::fsm(&args),
         "auth_session" => auth::session(&args),
         "remote_proxy" => auth::proxy(&args),
